@@ -47,9 +47,14 @@ CHECKS = {
               "fuzz of environment strings, splitting functions compared directly"),
         technique='Lean 4 proof over hand models of three engines + generated table + differential correspondence', ref='4 C04'),
     'C05': dict(
-        text=("Lean theorems: soundness of every scalar loader for all JSON inputs (nan/inf/huge/junk/containers), no load hook writes "
-              "its arguments (ast effect summaries), witnesses of the two recorded findings and of the repaired Union defect; model tied "
-              "to the code on a malformed + near-miss stream; conforms()/input-mutation oracle"),
+        text=("Lean theorems: soundness of the default-engine loader for every type built from the scalar kinds, Any, Optional, list / "
+              "set / frozenset / deque, variadic tuples, dict-like types and dataclasses nested to any depth, for EVERY JSON input "
+              "(nan / inf / huge / junk / wrong containers) and any travelling config: the result is an instance of the annotation "
+              "(exact container kinds, declared fields in order holding loaded values, the catch-all dictionary or declared defaults) "
+              "- induction over the type through the key loop, junk inputs and the constructor step; scalar soundness by case analysis; "
+              "no load hook writes its arguments (ast effect summaries regenerated each run); witnesses of the two recorded findings "
+              "and of the repaired Union defect. Union, fixed-length tuples, NamedTuple / TypedDict are covered by the oracle: model "
+              "tied to the code on a malformed + near-miss stream; conforms() / input-mutation oracle"),
         technique='Lean 4 proof over a hand model + effect summaries + differential correspondence', ref='4 C05'),
     'C09': dict(
         text=('Lean theorems for both engines: exact MissingFields list (class + exactly the absent required constructor fields, in declaration order for v1), init=False never demanded, defaulted never missing, on success every field holds the last supplied value or its default, kwargs contain constructor fields only (v1), a nested failure passes unchanged; models tied to the code by exhaustive key-subset correspondence (power sets) on default and v1 classes'),
